@@ -1,7 +1,9 @@
 /-
 C01 — property theorems.
 -/
-import TornadoModel.C01.Refine
+import TornadoModel.C01.Full
+import TornadoModel.C01.HeaderGrammar
+import TornadoModel.C01.ChunkedGrammar
 namespace TornadoModel.C01
 
 /-! ## 1. request line: exactly `token SP target SP HTTP/1.d` -/
@@ -383,5 +385,66 @@ theorem model_eq_spec :
 
 -- non-vacuity: two pipelined requests `GET / HTTP/1.1␍␊Host:x␍␊␍␊`, both extracted by the batch reader
 example : (Spec.readAll {} (getHead ++ getHead)).1.length = 2 := by decide
+
+/-! ## 7. everything the application sees: requests WITH bodies, the partial body, the end of the stream
+
+`view out` folds a trace into the application's view: the finished requests (head *and* body — all `data_received`
+pieces of one request concatenated — completed by `finish()`), and the request in progress.  `partialOf` = the body bytes
+delivered for the message in progress.  `Tail.body` / `Tail.closes`: what the batch reader says about the message at which
+it stops (`pending p | reject p | stop`). -/
+
+/-- **full refinement, any segmentation**: however the stream is cut into segments, the application has been handed
+    *exactly* the batch reader's finished requests (method, target, version, header fields, body bytes), in order and no
+    others; the body bytes delivered for the unfinished / rejected message are exactly those the batch reader extracts
+    for it; and the connection is closed iff the batch reader rejects the next message or the last request was not
+    persistent. -/
+theorem delivered_eq_spec (cfg : Cfg) (segs : List Str) :
+    (view (run cfg init segs).out).1 = (Spec.readAll cfg segs.flatten).1 ∧
+    partialOf (view (run cfg init segs).out) = (Spec.readAll cfg segs.flatten).2.body ∧
+    ((run cfg init segs).phase = .closed ↔ (Spec.readAll cfg segs.flatten).2.closes = true) := by
+  have hseg : run cfg init segs = run cfg init [segs.flatten] :=
+    segmentation_independent cfg segs [segs.flatten] (by simp)
+  have e1 : run cfg init [segs.flatten] = drain cfg { init with buf := segs.flatten } := by
+    simp [run, feed, St.app, init]
+  have h := refine_full cfg (segs.flatten.length + 1) { init with buf := segs.flatten } rfl (Nat.lt_succ_self _) rfl
+  rw [hseg, e1]
+  refine ⟨?_, h.part, h.closed⟩
+  have := h.done
+  simpa [init, Spec.readAll] using this
+
+/-- **after the first rejected message (or a non-persistent request) nothing further is delivered**: if the batch reader
+    stops at the end of `bytes` with `reject` or `stop`, then for every continuation `more` of the stream and every
+    segmentation of `bytes ++ more` the connection ends in *the same state with the same trace* as on `bytes` alone — no
+    later `headers_received` / `data_received` / `finish`, no later response —, the application has seen exactly the batch
+    reader's requests, the connection is closed and the `closed` event (after the `400` when there is one) is in the trace. -/
+theorem reject_delivers_nothing_further (cfg : Cfg) (bytes more : Str) (segs : List Str)
+    (hcl : (Spec.readAll cfg bytes).2.closes = true) (hsegs : segs.flatten = bytes ++ more) :
+    run cfg init segs = run cfg init [bytes] ∧
+    (view (run cfg init segs).out).1 = (Spec.readAll cfg bytes).1 ∧
+    partialOf (view (run cfg init segs).out) = (Spec.readAll cfg bytes).2.body ∧
+    (run cfg init segs).phase = .closed ∧ Ev.closed ∈ (run cfg init segs).out := by
+  have hb := delivered_eq_spec cfg [bytes]
+  simp only [List.flatten_cons, List.flatten_nil, List.append_nil] at hb
+  have hclosed : (run cfg init [bytes]).phase = .closed := hb.2.2.mpr hcl
+  have e : run cfg init segs = run cfg init [bytes] := by
+    rw [segmentation_independent cfg segs [bytes, more] (by simpa using hsegs)]
+    show run cfg (feed cfg init bytes) [more] = run cfg (feed cfg init bytes) []
+    exact run_closed_absorbs cfg _ [more] hclosed
+  rw [e]
+  exact ⟨rfl, hb.1, hb.2.1, hclosed, closedInv_run cfg init [bytes] (by intro h; simp [init] at h) hclosed⟩
+
+/-- the same for a 400: whenever the machine answers 400 it closes, and that is final (trace level) -/
+theorem closed_has_event (cfg : Cfg) (segs : List Str) (h : (run cfg init segs).phase = .closed) :
+    Ev.closed ∈ (run cfg init segs).out :=
+  closedInv_run cfg init segs (by intro h; simp [init] at h) h
+
+-- non-vacuity: `GET / HTTP/1.1␍␊Host:x␍␊␍␊` followed by the malformed head `X␍␊␍␊`: one request, then reject
+example : Spec.readAll {} (getHead ++ [88, 13, 10, 13, 10]) =
+    ([⟨[71, 69, 84], [47], kHttp11, [(kHost, [120])], []⟩], .reject []) := by decide
+-- a chunked POST whose second chunk has a bad terminator: no finished request, the first chunk's bytes, reject
+example : Spec.readAll {} (postChunkedHead ++ [49, 13, 10, 97, 13, 10, 49, 13, 10, 98, 88, 89]) = ([], .reject [97, 98]) := by
+  decide
+example : view (run {} init [postChunkedHead ++ [49, 13, 10, 97, 13, 10, 49, 13], [10, 98, 88, 89, 71]]).out
+    = ([], some ⟨[80, 79, 83, 84], [47], kHttp11, [(kHost, [120]), (kTransferEncoding, kChunked)], [97, 98]⟩) := by decide
 
 end TornadoModel.C01
